@@ -19,6 +19,16 @@ CLAIMS = {
         technique='Verus function contracts against a reference step function, on extracted code',
         design='5 C01',
     ),
+    'C04': dict(
+        text=('Unbounded deductive proof (Verus) of the flush worker against a ghost effect trace (Write/Sync/SetEvictable/Ack/Unlink events spliced mechanically after every effectful call, rule E9): '
+              'history invariant "every successful Ack event is preceded by a state with no file written-and-not-synced" (acks_sound), "every file holding unsynced data is still tracked" (covered), '
+              'preserved by sync_all_files (also at its error exit: defect D7, fixed), handle_non_flush_request and every iteration of run_inner for an ARBITRARY next request and batch split; '
+              'sender side: send_flush hands over exactly the bytes buffered since the last hand-over with sync=true and the callback, rotation queues the old tail as a synced Write before AppendFile. '
+              'At-most-once per callback is Rust move semantics (Callback::send consumes self).'),
+        note=TRUST + ' Assumed: write_all/sync_data semantics (a successful fdatasync makes all earlier writes to that file durable), FIFO channel, message invariant "every Write has sync == true" (proved on the sender in U5, assumed at recv), rule E7 desugaring of try_iter().take(n) and iter().any(). Liveness (every sent request is eventually processed) is not decided.',
+        technique='Verus history invariant over a ghost effect trace, on extracted code',
+        design='5 C04',
+    ),
     'C06': dict(
         text=('Unbounded deductive proof (Verus): RaftLog::append_and_apply has the postcondition "record not accepted by the reference => Err and *final(self) == *old(self)" '
               '(whole struct: state, index, cache, journal buffer, offsets, closed chunks, sent messages, removal list), inherited by save_vote, commit, truncate '
@@ -26,6 +36,23 @@ CLAIMS = {
         note=TRUST + ' Batch append applies the valid prefix before failing (finding D16, generic IntoIterator loop not under contract). "after flush and restart" relies on C02.',
         technique='Verus frame postcondition (Err => nothing changed) on extracted code',
         design='5 C06',
+    ),
+    'C07': dict(
+        text=('Unbounded deductive proof (Verus) of the cache-pinning half of the property: no PayloadCache method (insert, try_evict, evict_first, drain_evictable, purge_upto) ever drops an entry above the evictable boundary, '
+              'for an arbitrary boundary at entry (rely condition standing in for the worker thread); the new entry of an append stays resident if it is above the boundary; carried through RaftLogStateMachine::apply and RaftLog::append_and_apply; '
+              'worker side: the boundary is raised (SetEvictable event) only in a state where every file other than the newest tracked one is clean (evictable_sound, history invariant). '
+              'Not decided in this revision: the disk-read fallback of read() (load_log_payload / finding D8) and the concurrent-readers clause.'),
+        note=TRUST + ' Lock sequentialised (E6). The concurrent-readers clause is Rust Sync typing + pread and has no contract.',
+        technique='Verus pinning postconditions + history invariant, on extracted code',
+        design='5 C07',
+    ),
+    'C08': dict(
+        text=('Unbounded deductive proof (Verus): RaftLog::flush sends the synced Write request first and RemoveChunks second and empties the removal list; the worker unlinks paths in list order; '
+              'the obligation "an Unlink event happens only in a state with nothing unsynced" (unlinks_sound) is proved for handle_non_flush_request given its precondition and is a KNOWN FINDING (D9) at the two call sites in run_inner, '
+              'where the request is executed whatever the result of the preceding sync. Not decided in this revision: which chunks purge selects (oldest-first prefix) and the leak clause (D13).'),
+        note=TRUST + ' Assumed: remove_file/fdatasync semantics, FIFO channel.',
+        technique='Verus history invariant over a ghost effect trace + sent-message order, on extracted code',
+        design='5 C08',
     ),
     'C11': dict(
         text=('Unbounded deductive proof (Verus) of the journal arithmetic: append_record buffers exactly enc(rec) and pushes end+|enc(rec)|; the segment returned by a write is '
